@@ -43,8 +43,11 @@ class VariableElimination(Inference):
         dict: Modified working factors.
         """
 
+        # Factors compare and hash by value, so each one is tagged with its identity:
+        # two equal factors of the model (e.g. a repeated potential in a Markov
+        # network) must both be kept.
         working_factors = {
-            node: {(factor, None) for factor in self.factors[node]}
+            node: {(factor, id(factor)) for factor in self.factors[node]}
             for node in self.factors
         }
 
@@ -57,7 +60,7 @@ class VariableElimination(Inference):
                     )
                     for var in factor_reduced.scope():
                         working_factors[var].remove((factor, origin))
-                        working_factors[var].add((factor_reduced, evidence_var))
+                        working_factors[var].add((factor_reduced, origin))
                 del working_factors[evidence_var]
         return working_factors
 
